@@ -80,10 +80,25 @@ func Swarm(seed uint64, enable [rt.NumKinds]bool) [rt.NumKinds]uint32 {
 	}
 	// scheduler: probability of not continuing the current task at a yield
 	b[rt.KSched] = [...]uint32{0, 6500, 30000, 50000}[next()%4]
+	if SwarmPCT(seed) && b[rt.KGap] > 3000 {
+		b[rt.KGap] = 3000 // PCT: few priority change points per run
+	}
 	if enable[rt.KTimeSkip] {
 		b[rt.KTimeSkip] = [...]uint32{0, 0, 300, 2000}[next()%4]
 	}
 	return b
+}
+
+// PCTShare: one run in PCTShare uses the priority-based (PCT) scheduler (set per property by its harness).
+var PCTShare uint64 = 3
+
+// SwarmPCT decides from the seed whether a run uses the priority-based (PCT) scheduler.
+func SwarmPCT(seed uint64) bool {
+	x := seed*0xD1B54A32D192ED03 + 0x2545F4914F6CDD1D
+	x ^= x >> 31
+	x *= 0x9E3779B97F4A7C15
+	x ^= x >> 29
+	return x%PCTShare == 0
 }
 
 func AllKinds() [rt.NumKinds]bool {
